@@ -18,6 +18,6 @@ for i in range(4):
     print("after open %d: revision rows %r, json table %r, extra object columns %r" % ((i + 1,) + look()))
 rev, _, extra = look()
 shutil.rmtree(tmp)
-assert rev != [], "stamp stored (defect repaired)"
+assert rev == [], "stamp stored (defect repaired)"
 print("DEFECT: revision table is still empty after 4 opens; the first open migrated nothing on disk, "
       "the third one added 'latent_variables_for_id' again")
